@@ -538,3 +538,35 @@ pub fn gen_num_literal(src: &mut Src) -> RefExpr {
 pub fn gen_str_literal(src: &mut Src) -> RefExpr {
     RefExpr::Literal(J::Str(gen_string(src)))
 }
+
+/// An expression without any reference to the current node: literals combined
+/// by multi-selects, comparisons and boolean operators.  Its value is the same
+/// on every node except that a multi-select on a null node is null.
+pub fn gen_constant_expr(src: &mut Src, d: usize) -> RefExpr {
+    let leaf = d >= 2;
+    match src.weighted(&[if leaf { 10 } else { 3 }, 4, 3, 1, 1, 1]) {
+        0 => RefExpr::Literal(gen_scalar(src)),
+        1 => RefExpr::MultiList((0..1 + src.below(3)).map(|_| gen_constant_expr(src, d + 1)).collect()),
+        2 => {
+            let mut seen = BTreeSet::new();
+            let mut kvs = vec![];
+            for _ in 0..1 + src.below(3) {
+                let k = src.pick(KEYS).to_string();
+                if seen.insert(k.clone()) {
+                    kvs.push((k, gen_constant_expr(src, d + 1)));
+                }
+            }
+            RefExpr::MultiHash(kvs)
+        }
+        3 => RefExpr::Cmp(*src.pick(&CmpOp::ALL), b(gen_constant_expr(src, d + 1)), b(gen_constant_expr(src, d + 1))),
+        4 => RefExpr::Not(b(gen_constant_expr(src, d + 1))),
+        _ => {
+            let (l, r) = (gen_constant_expr(src, d + 1), gen_constant_expr(src, d + 1));
+            if src.flip() {
+                RefExpr::Or(b(l), b(r))
+            } else {
+                RefExpr::And(b(l), b(r))
+            }
+        }
+    }
+}
